@@ -5,6 +5,7 @@ import (
 	"go/constant"
 	"go/token"
 	"go/types"
+	"strconv"
 	"strings"
 
 	"golang.org/x/tools/go/ssa"
@@ -32,38 +33,16 @@ var floatsTable = []floatsSpec{
 	{"StdDev", "stat.StdDev", "", true},
 }
 
-// lenIsZeroGuard: g establishes len(v)==0 (want=true) or len(v)!=0 (want=false).
+// lenGuard: g establishes len(of)==0 (empty=true) or len(of)!=0 (empty=false), in whatever spelling the
+// test is written (`len(x) == 0`, `len(x) < 1`, `0 == len(x)`, `!(len(x) > 0)`, `len(x) <= 0` ...): the
+// branch outcome is read as a comparison that holds (CmpFact) and decided with len >= 0 (c19LenFact).
+// A test that only bounds the length (`len(x) > 1` taken false, `len(x) <= 1`) establishes neither.
 func lenGuard(tm *Termer, g Guard, of string) (empty bool, ok bool) {
-	t := tm.Of(g.Cond)
-	if t.Op != "bin" {
+	e, ne := c19LenFact(tm, g, of)
+	if e == ne {
 		return false, false
 	}
-	l, k, op := t.Args[0], t.Args[1], t.Name
-	if l.Op != "len" {
-		l, k = k, l
-		switch op {
-		case "<":
-			op = ">"
-		case ">":
-			op = "<"
-		case "<=":
-			op = ">="
-		case ">=":
-			op = "<="
-		}
-	}
-	if l.Op != "len" || l.Args[0].String() != of || k.String() != "0" {
-		return false, false
-	}
-	switch op {
-	case "==":
-		return g.True, true
-	case "!=", ">":
-		return !g.True, true
-	case "<=":
-		return g.True, true
-	}
-	return false, false
+	return e, true
 }
 
 // sortedOrigin decides whether the slice value v is sorted when used at `use`:
@@ -131,7 +110,7 @@ func (r *Run) sortedOrigin(fn *ssa.Function, v ssa.Value, use ssa.Instruction, d
 
 // C19 — result statistics.
 func C19(p *Prog, r *Run) {
-	r.Explanation = "Decided: (1) every Floats method except Sum returns math.NaN() (both elements for MeanVariance) on the path where len(x)==0 and that test dominates every gonum call of the method (a method built only from other accessors of the type, which are NaN there themselves, needs no test of its own); (2) gonum preconditions, keyed by the library function: stat.Quantile gets a constant level in [0,1], the Empirical kind, nil weights and a slice on which a sort call dominates the use (a sorted copy), floats.Min/Max never see an empty slice; (3) on every path for a non-empty series each method returns the quantity of its definition (Mean→stat.Mean, …, Median/Q25/Q75→Quantile 0.5/0.25/0.75), applied to the series itself without weights, written either as the canonical gonum call or as an expression that gonum v0.14.0 defines to be the same value (stat.Variance = second result of stat.MeanVariance, stat.StdDev = second result of stat.MeanStdDev = math.Sqrt of the variance, stat.Mean = first result of MeanVariance/MeanStdDev = floats.Sum/float64(len), floats.Min = x[floats.MinIdx(x)], another accessor of the type for its own quantity; table with reasons in robust_c19.go), the population variants (divide by n) and hand-written loops are not accepted; (4) the experiment/trial aggregates are built from the recorded generations as their definitions say (success rate = solved/len, solved = any generation solved, epochs per trial = len(Generations), diversity, best organism chosen on a fresh slice; the solved count is the loop counter on every return, never a remembered value); (5) the complexity of an organism is Complexity() of the network returned by its Phenotype(), asked only when Phenotype() reported no error, with the math.MaxInt sentinel confined to a missing organism/champion or a failed phenotype. Results are followed through phi nodes edge by edge, so an early return and a single return of a merged value are the same to the rules; a quantile level may be a parameter of an unexported helper when every call in the repository passes a constant in [0,1]. A fixed-size result slice that is filled branch by branch and returned once is read path by path (the elements stored last on each acyclic path, under the branch outcomes of that path). A series element produced by a capture-free function literal that an inlined helper received as its function-valued argument is what the literal returns for these arguments; a path of the literal returning the constant 0 counts as leaving the freshly made element untouched when the store is the only writer of the slice and writes each element at most once. Not decided: gonum's numerics; full recomputation equalities."
+	r.Explanation = "Decided: (1) every Floats method except Sum returns math.NaN() (both elements for MeanVariance) on the path where len(x)==0 and that test dominates every gonum call of the method (a method built only from other accessors of the type, which are NaN there themselves, needs no test of its own); (2) gonum preconditions, keyed by the library function: stat.Quantile gets a constant level in [0,1], the Empirical kind, nil weights and a slice on which a sort call dominates the use (a sorted copy), floats.Min/Max never see an empty slice; (3) on every path for a non-empty series each method returns the quantity of its definition (Mean→stat.Mean, …, Median/Q25/Q75→Quantile 0.5/0.25/0.75), applied to the series itself without weights, written either as the canonical gonum call or as an expression that gonum v0.14.0 defines to be the same value (stat.Variance = second result of stat.MeanVariance, stat.StdDev = second result of stat.MeanStdDev = math.Sqrt of the variance, stat.Mean = first result of MeanVariance/MeanStdDev = floats.Sum/float64(len), floats.Min = x[floats.MinIdx(x)], another accessor of the type for its own quantity; table with reasons in robust_c19.go), the population variants (divide by n) and hand-written loops are not accepted; (4) the experiment/trial aggregates are built from the recorded generations as their definitions say (success rate = solved/len, solved = any generation solved, epochs per trial = len(Generations), diversity, best organism chosen on a fresh slice; the solved count is the loop counter on every return, never a remembered value); (5) the complexity of an organism is Complexity() of the network returned by its Phenotype(), asked only when Phenotype() reported no error, with the math.MaxInt sentinel confined to a missing organism/champion or a failed phenotype. Results are followed through phi nodes edge by edge, so an early return and a single return of a merged value are the same to the rules; a quantile level may be a parameter of an unexported helper when every call in the repository passes a constant in [0,1]. A fixed-size result slice that is filled branch by branch and returned once is read path by path (the elements stored last on each acyclic path, under the branch outcomes of that path). A series element produced by a capture-free function literal that an inlined helper received as its function-valued argument is what the literal returns for these arguments; a path of the literal returning the constant 0 counts as leaving the freshly made element untouched when the store is the only writer of the slice and writes each element at most once. Fourth round: the emptiness test is read in any spelling (a branch outcome is turned into a comparison that holds and decided with len >= 0; a test that only bounds the length establishes neither emptiness nor its opposite); the data of a quantile hold the elements of the series (a copy made before the sort); (8) counts and empty values are exact: the number of solved trials is incremented once for every trial with Solved() by a loop that visits every trial and runs for every experiment with trials (path enumeration of one iteration, path-resolved increments), the winner averages sum WinnerStatistics()#k over exactly those trials, return the -1 sentinel only where that count is 0 and the quotients only where it is not, every mean over a list returns its empty value only where len==0 is established and divides only where len!=0 is, Experiment.Solved / Trial.Solved are existence statements over all records, Trial.WinnerStatistics yields the winner generation's fields where a winner is known, 0 only where the scan found none and -1 only without generations; (9) a series element is stored in exactly the iterations in which its statistic is defined; (10) Trial.BestOrganism collects the champion of every generation (or of exactly the solved ones) and returns the first element of the collection sorted in descending order exactly where it is non-empty. Not decided: gonum's numerics; full recomputation equalities; the recording itself (FillPopulationStatistics)."
 	r.Rule("C19.1", "empty guard: each Floats method except Sum returns NaN when len(x)==0, and the emptiness test dominates the library call", func() {
 		n := 0
 		for _, sp := range floatsTable {
@@ -225,6 +204,9 @@ func C19(p *Prog, r *Run) {
 				r.Check(okKind, label+".kind", p.Pos(c.Pos()), "empirical quantile kind", "the quantile kind is not stat.Empirical")
 				sorted, why := r.sortedOrigin(fn, args[2], c, 0)
 				r.Check(sorted, label+".sorted", p.Pos(c.Pos()), "sorted input: "+why, "stat.Quantile requires sorted data and panics otherwise; here "+why)
+				// ... that holds the elements of the series (not a slice of zeros of the same length)
+				holds, whyD := c19HoldsSeries(fn, args[2], c, 0)
+				r.Check(holds, label+".data", p.Pos(c.Pos()), "the data are the elements of the series: "+whyD, "the quantile is not taken of the elements of the series: the data argument is "+whyD)
 				w := NewTermer(fn).Of(args[3])
 				r.Check(w.Op == "nil", label+".weights", p.Pos(c.Pos()), "nil weights", "weights are "+w.String())
 			}
@@ -333,12 +315,26 @@ func C19(p *Prog, r *Run) {
 					continue
 				}
 				nRes++
-				ok := t.Op == "bin" && t.Name == "/" && t.Args[0].Op == "conv" && t.Args[1].Op == "conv" && t.Args[0].Name == "float64" && t.Args[1].Name == "float64"
+				// an operand is in floating point: converted to float64 here, or accumulated as a float already
+				// (what it accumulates and counts is decided by C19.8)
+				isFloat := func(x *Term) bool {
+					if x.Op == "conv" {
+						return x.Name == "float64"
+					}
+					if x.V == nil {
+						return false
+					}
+					bt, isB := x.V.Type().Underlying().(*types.Basic)
+					return isB && bt.Info()&types.IsFloat != 0
+				}
+				ok := t.Op == "bin" && t.Name == "/" && isFloat(t.Args[0]) && isFloat(t.Args[1])
 				if ok {
 					// numerator accumulates a component of WinnerStatistics, denominator counts the solved trials
-					num, den := t.Args[0].Args[0], t.Args[1].Args[0]
+					num := t.Args[0]
+					if num.Op == "conv" {
+						num = num.Args[0]
+					}
 					ok = strings.Contains(num.String(), "WinnerStatistics") || num.Op == "phi" || num.Op == "loop"
-					_ = den
 				}
 				if !ok {
 					okAll = false
@@ -627,6 +623,698 @@ func C19(p *Prog, r *Run) {
 		}
 		r.Check(okAll && nCall > 0, "Generation.ChampionComplexity", p.Pos(cc.Pos()), "organismComplexity(g.Champion); math.MaxInt only without a champion",
 			"Generation.ChampionComplexity is not the complexity of the recorded champion: "+strings.Join(why, "; "))
+	})
+
+	r.Rule("C19.8", "exact counts, and the empty value exactly when empty: the number of solved trials an aggregate divides by (or returns) is incremented once for every trial with Solved() and for no other, by a loop that visits every trial and that is executed for every experiment with trials; the winner averages return the -1 sentinel only where that count is 0 (or there are no trials / no solved trial) and the quotients only where it is not; every mean over a list returns its empty value (0, EmptyDuration) only where len(list)==0 is established and divides only where len(list)!=0 is, its total being the sum over every element; Trial.WinnerStatistics returns -1 only for a trial without generations and scans them otherwise. If one of these is false some experiment (a single solved trial, a list of one element) gets the empty value although the recorded generations define the statistic", func() {
+		solvedFn := p.Func(PkgE, "Trial.Solved")
+		wsFn := p.Func(PkgE, "Trial.WinnerStatistics")
+		tsFn := p.Func(PkgE, "Experiment.TrialsSolved")
+		esFn := p.FuncOpt(PkgE, "Experiment.Solved")
+		const trials = "recv.Trials"
+		stripNot := func(g Guard) (ssa.Value, bool) {
+			cond, out := g.Cond, g.True
+			for {
+				if u, ok := cond.(*ssa.UnOp); ok && u.Op == token.NOT {
+					cond, out = u.X, !out
+					continue
+				}
+				return cond, out
+			}
+		}
+		// an iteration contributes exactly when the trial it visits reports Solved()
+		solvedOnly := func(tm *Termer, ip *IterPath, iv ssa.Value) (int, string) {
+			switch c19CallOutcome(tm, ip.Conds, solvedFn, trials, iv) {
+			case 1:
+				return 1, ""
+			case -1:
+				return 0, ""
+			}
+			return -1, "an iteration passes a trial without asking its Solved()"
+		}
+		countSpec := c19Sum{List: trials, Want: solvedOnly, Add: func(_ *Termer, add ssa.Value, _ ssa.Value) bool { return c19ConstIs(add, 1) }}
+
+		// (a) Experiment.TrialsSolved: what is returned counts every solved trial once
+		{
+			tm := NewTermer(tsFn)
+			r.Fn(FuncName(tsFn))
+			why, n := "", 0
+			for _, b := range tsFn.Blocks {
+				ret, ok := b.Instrs[len(b.Instrs)-1].(*ssa.Return)
+				if !ok || len(ret.Results) == 0 {
+					continue
+				}
+				if _, isC := ret.Results[0].(*ssa.Const); isC {
+					continue // 0 for no trials: c19CounterReturns (C19.4)
+				}
+				n++
+				l, w := c19SumOver(tsFn, tm, ret.Results[0], countSpec)
+				if w == "" {
+					w = c19ReachedUnless(p, tsFn, tm, l, func(gs []Guard) bool { return c19AnyEmpty(tm, gs, trials) })
+				}
+				if w != "" && why == "" {
+					why = w
+				}
+			}
+			r.Check(why == "" && n > 0, "Experiment.TrialsSolved.exact", p.Pos(tsFn.Pos()), "the count returned is incremented once for every trial with Solved(), by a loop over all trials", "TrialsSolved does not return the number of solved trials: "+why)
+		}
+
+		// (b) Experiment.AvgWinnerStatistics
+		{
+			aw := p.Func(PkgE, "Experiment.AvgWinnerStatistics")
+			r.Fn(FuncName(aw))
+			tm := NewTermer(aw)
+			isRecvCall := func(v ssa.Value, fn *ssa.Function) bool {
+				c, ok := v.(*ssa.Call)
+				return ok && fn != nil && c.Call.StaticCallee() == fn && len(c.Call.Args) == 1 && tm.Of(c.Call.Args[0]).Op == "recv"
+			}
+			// nothing to average: no trials, Solved() of the experiment false, TrialsSolved() == 0
+			noWinner := func(gs []Guard) bool {
+				if c19AnyEmpty(tm, gs, trials) {
+					return true
+				}
+				for _, g := range gs {
+					if cond, out := stripNot(g); !out && isRecvCall(cond, esFn) {
+						return true
+					}
+					if z, _ := c19NatFact(g, func(v ssa.Value) bool { return isRecvCall(c19StripConv(v), tsFn) }); z {
+						return true
+					}
+				}
+				return false
+			}
+			countPhis := map[*ssa.Phi]bool{}
+			scans := map[*Loop]bool{}
+			isCount := func(v ssa.Value) bool {
+				v = c19StripConv(v)
+				if ph, ok := v.(*ssa.Phi); ok && countPhis[ph] {
+					return true
+				}
+				return isRecvCall(v, tsFn)
+			}
+			outsideScans := func(gs []Guard) []Guard {
+				var out []Guard
+				for _, g := range gs {
+					in := false
+					for l := range scans {
+						if g.At != nil && l.Blocks[g.At] {
+							in = true
+						}
+					}
+					if !in {
+						out = append(out, g)
+					}
+				}
+				return out
+			}
+			var whyCount, whyTotals, whyForm []string
+			sumMemo := map[string]string{}
+			nQuot := 0
+			type sentinel struct {
+				lf retLeaf
+				k  int
+			}
+			var sentinels []sentinel
+			var quots []retLeaf
+			for k := 0; k < 4; k++ {
+				for _, lf := range retLeaves(aw, k) {
+					if _, isC := lf.Val.(*ssa.Const); isC {
+						sentinels = append(sentinels, sentinel{lf, k})
+						continue
+					}
+					b, ok := lf.Val.(*ssa.BinOp)
+					if !ok || b.Op != token.QUO {
+						whyForm = append(whyForm, fmt.Sprintf("result %d is %s, not total/count", k, tm.Of(lf.Val)))
+						continue
+					}
+					nQuot++
+					quots = append(quots, lf)
+					num, den := c19StripConv(b.X), c19StripConv(b.Y)
+					// the denominator: the exact number of solved trials
+					if !isRecvCall(den, tsFn) {
+						key := "count:" + den.Name()
+						w, seen := sumMemo[key]
+						if !seen {
+							var l *Loop
+							l, w = c19SumOver(aw, tm, den, countSpec)
+							sumMemo[key] = w
+							if w == "" {
+								scans[l] = true
+								for ph := range phiWeb(den).Phis {
+									countPhis[ph] = true
+								}
+							}
+						}
+						if w != "" {
+							whyCount = append(whyCount, fmt.Sprintf("the denominator of result %d: %s", k, w))
+						}
+					}
+					// the numerator: component k of the winner statistics, summed over the solved trials
+					kk := k
+					l, w := c19SumOver(aw, tm, num, c19Sum{List: trials, Want: solvedOnly, Add: func(tm *Termer, add ssa.Value, iv ssa.Value) bool {
+						ex, ok := c19StripConv(add).(*ssa.Extract)
+						if !ok || ex.Index != kk {
+							return false
+						}
+						c, ok := ex.Tuple.(*ssa.Call)
+						return ok && c.Call.StaticCallee() == wsFn && len(c.Call.Args) == 1 && c19ElemOf(tm.Of(c.Call.Args[0]), trials, iv)
+					}})
+					if w != "" {
+						whyTotals = append(whyTotals, fmt.Sprintf("the numerator of result %d: %s", k, w))
+					} else {
+						scans[l] = true
+					}
+				}
+			}
+			if nQuot < 4 {
+				whyForm = append(whyForm, "fewer than four averages are returned as quotients")
+			}
+			r.Check(len(whyCount) == 0 && len(whyForm) == 0, "AvgWinnerStatistics.count", p.Pos(aw.Pos()), "every average divides by a count that is incremented once for every trial with Solved() and for no other, by a loop over all trials",
+				"AvgWinnerStatistics does not divide by the number of solved trials: "+strings.Join(append(whyForm, whyCount...), "; "))
+			r.Check(len(whyTotals) == 0 && len(whyForm) == 0, "AvgWinnerStatistics.totals", p.Pos(aw.Pos()), "average k divides the sum of WinnerStatistics()#k over exactly the trials with Solved()",
+				"AvgWinnerStatistics does not sum the winner statistics of exactly the solved trials: "+strings.Join(append(whyForm, whyTotals...), "; "))
+			// the scan runs for every experiment that has a solved trial
+			whyReach := ""
+			for l := range scans {
+				if w := c19ReachedUnless(p, aw, tm, l, noWinner); w != "" {
+					whyReach = w
+				}
+			}
+			if len(scans) == 0 && !(len(whyForm) == 0 && len(whyCount) == 0 && len(whyTotals) == 0) {
+				whyReach = "no scan of the trials was identified"
+			}
+			r.Check(whyReach == "", "AvgWinnerStatistics.scan-reached", p.Pos(aw.Pos()), "every path to a return that does not run the scan of the trials is one on which there are no trials (or no solved trial)",
+				"AvgWinnerStatistics can return without counting the solved trials of an experiment that has some: "+whyReach+" (such an experiment reports the -1 sentinel or a wrong average although Trial.WinnerStatistics has the figures)")
+			// sentinel <=> count == 0
+			var whySent []string
+			for _, s := range sentinels {
+				if !c19ConstIs(s.lf.Val, -1) {
+					whySent = append(whySent, fmt.Sprintf("result %d can be the constant %s", s.k, tm.Of(s.lf.Val)))
+					continue
+				}
+				gs := outsideScans(s.lf.Guards)
+				just := noWinner(gs)
+				for _, g := range gs {
+					if z, _ := c19NatFact(g, isCount); z {
+						just = true
+					}
+				}
+				if !just {
+					whySent = append(whySent, fmt.Sprintf("the -1 sentinel of result %d is returned without the solved count being 0", s.k))
+				}
+			}
+			for _, lf := range quots {
+				nz := false
+				for _, g := range outsideScans(c19LeafGuards(lf)) {
+					if _, n := c19NatFact(g, isCount); n {
+						nz = true
+					}
+				}
+				if !nz {
+					whySent = append(whySent, "a quotient is returned without the solved count being known to be non-zero (0/0 instead of the -1 sentinel)")
+					break
+				}
+			}
+			r.Check(len(whySent) == 0, "AvgWinnerStatistics.sentinel", p.Pos(aw.Pos()), "(-1,-1,-1,-1) exactly where the solved count is 0, the quotients exactly where it is not", "AvgWinnerStatistics: "+strings.Join(whySent, "; "))
+		}
+
+		// (e) "solved" is an existence statement over the records
+		if esFn != nil {
+			r.Fn(FuncName(esFn))
+			tm := NewTermer(esFn)
+			w := c19Exists(p, esFn, tm, trials, func(gs []Guard, iv ssa.Value) int { return c19CallOutcome(tm, gs, solvedFn, trials, iv) })
+			r.Check(w == "", "Experiment.Solved.exists", p.Pos(esFn.Pos()), "true exactly when some trial reports Solved(): every trial is asked until one does", "Experiment.Solved is not `some trial is solved`: "+w)
+		}
+		{
+			r.Fn(FuncName(solvedFn))
+			tm := NewTermer(solvedFn)
+			w := c19Exists(p, solvedFn, tm, "recv.Generations", func(gs []Guard, iv ssa.Value) int { return c19FieldOutcome(tm, gs, "Solved", "recv.Generations", iv) })
+			r.Check(w == "", "Trial.Solved.exists", p.Pos(solvedFn.Pos()), "true exactly when some recorded generation has Solved: every generation is looked at until one has", "Trial.Solved is not `some generation is solved`: "+w)
+		}
+
+		// (c) means over a list: empty value <=> empty list, total over every element
+		type mean struct {
+			fn, list, add string
+			empty         int64 // the documented value for an empty list (EmptyDuration is -1)
+		}
+		emptyDuration := int64(-1)
+		if c := p.constVal(PkgE, "EmptyDuration", "-1"); c != "-1" {
+			if v, err := strconv.ParseInt(c, 10, 64); err == nil {
+				emptyDuration = v
+			}
+		}
+		for _, m := range []mean{
+			{"Experiment.AvgTrialDuration", trials, "recv.Trials[*].Duration", emptyDuration},
+			{"Experiment.AvgEpochDuration", trials, "Trial.AvgEpochDuration(recv.Trials[*])", emptyDuration},
+			{"Experiment.AvgGenerationsPerTrial", trials, "float64(len(recv.Trials[*].Generations))", 0},
+			{"Trial.AvgEpochDuration", "recv.Generations", "recv.Generations[*].Duration", emptyDuration},
+			{"Experiment.SuccessRate", trials, "", 0},
+		} {
+			fn := p.Func(PkgE, m.fn)
+			r.Fn(FuncName(fn))
+			tm := NewTermer(fn)
+			var why []string
+			nQ := 0
+			for _, lf := range retLeaves(fn, 0) {
+				gs := c19LeafGuards(lf)
+				_, isC := lf.Val.(*ssa.Const)
+				if isC || c19IsGlobalLoad(lf.Val) {
+					if !c19AnyEmpty(tm, gs, m.list) {
+						why = append(why, "the empty value "+tm.Of(lf.Val).String()+" is returned on a path on which len("+m.list+")==0 is not established (a non-empty list gets it)")
+					}
+					if isC && !c19ConstIs(lf.Val, m.empty) {
+						why = append(why, fmt.Sprintf("the value for an empty list is %s, not %d", tm.Of(lf.Val), m.empty))
+					}
+					continue
+				}
+				b, ok := lf.Val.(*ssa.BinOp)
+				if !ok || b.Op != token.QUO {
+					why = append(why, "returns "+tm.Of(lf.Val).String()+", which is not total/len("+m.list+")")
+					continue
+				}
+				nQ++
+				if !c19AnyNonEmpty(tm, gs, m.list) {
+					why = append(why, "divides by the length on a path on which len("+m.list+")!=0 is not established")
+				}
+				if dt := tm.Of(c19StripConv(b.Y)); !(dt.Op == "len" && len(dt.Args) == 1 && dt.Args[0].String() == m.list) {
+					why = append(why, "divides by "+dt.String()+", not by len("+m.list+")")
+				}
+				if m.add == "" {
+					if nt := tm.Of(c19StripConv(b.X)); !(isCallTo(nt, tsFn) && len(nt.Args) == 1 && nt.Args[0].Op == "recv") {
+						why = append(why, "the numerator is "+nt.String()+", not TrialsSolved()")
+					}
+					continue
+				}
+				mm := m
+				l, w := c19SumOver(fn, tm, b.X, c19Sum{List: m.list,
+					Want: func(*Termer, *IterPath, ssa.Value) (int, string) { return 1, "" },
+					Add: func(tm *Termer, add ssa.Value, iv ssa.Value) bool {
+						at := tm.Of(add)
+						return strings.NewReplacer(" ", "", "&", "").Replace(at.String()) == mm.add && c19ElemOf(at, mm.list, iv)
+					}})
+				if w == "" {
+					w = c19ReachedUnless(p, fn, tm, l, func(gs []Guard) bool { return c19AnyEmpty(tm, gs, mm.list) })
+				}
+				if w != "" {
+					why = append(why, "the total: "+w)
+				}
+			}
+			if nQ == 0 {
+				why = append(why, "no quotient is returned")
+			}
+			r.Check(len(why) == 0, m.fn+".empty-iff", p.Pos(fn.Pos()), "total/len("+m.list+") where the list is known to be non-empty, the empty value only where len("+m.list+")==0 is established; the total sums every element", m.fn+": "+strings.Join(why, "; "))
+		}
+
+		// (d) Trial.WinnerStatistics: -1 only for a trial without generations; otherwise (no cached winner) the generations are scanned
+		{
+			const gens = "recv.Generations"
+			r.Fn(FuncName(wsFn))
+			tm := NewTermer(wsFn)
+			var why []string
+			for k := 0; k < 4; k++ {
+				for _, lf := range retLeaves(wsFn, k) {
+					if _, isC := lf.Val.(*ssa.Const); isC && c19ConstIs(lf.Val, -1) && !c19AnyEmpty(tm, lf.Guards, gens) {
+						why = append(why, fmt.Sprintf("result %d is the -1 of a trial without generations on a path on which len(%s)==0 is not established", k, gens))
+					}
+				}
+			}
+			isWG := func(v ssa.Value) bool {
+				t := tm.Of(v)
+				return t != nil && t.Op == "field" && t.Name == "WinnerGeneration" && len(t.Args) == 1 && t.Args[0].Op == "recv"
+			}
+			excused := func(gs []Guard) bool {
+				if c19AnyEmpty(tm, gs, gens) {
+					return true
+				}
+				for _, g := range gs {
+					if GuardNilness(g, isWG) == -1 {
+						return true
+					}
+				}
+				return false
+			}
+			nScan := 0
+			for _, l := range Loops(wsFn) {
+				if _, ok := c19FullRange(tm, l, gens); !ok {
+					continue
+				}
+				nScan++
+				if w := c19ReachedUnless(p, wsFn, tm, l, excused); w != "" {
+					why = append(why, w)
+				}
+			}
+			if nScan == 0 {
+				why = append(why, "no loop visits the generations from the first on")
+			}
+			// each result, way by way: the winner's field where a winner is known (the cached one, or the
+			// generation the scan found solved), 0 only where the scan found none, -1 only for no generations
+			wantF := []string{"WinnerNodes", "WinnerGenes", "WinnerEvals", "Diversity"}
+			var whyV []string
+			for k := 0; k < 4; k++ {
+				for _, lf := range retLeaves(wsFn, k) {
+					cached, found := false, c19FieldOutcome(tm, lf.Guards, "Solved", gens, nil) == 1
+					for _, g := range lf.Guards {
+						if GuardNilness(g, isWG) == -1 {
+							cached = true
+						}
+					}
+					if _, isC := lf.Val.(*ssa.Const); isC {
+						switch {
+						case cached:
+							whyV = append(whyV, fmt.Sprintf("result %d is the constant %s although the cached winner generation is there", k, tm.Of(lf.Val)))
+						case found:
+							whyV = append(whyV, fmt.Sprintf("result %d is the constant %s although a solved generation was found", k, tm.Of(lf.Val)))
+						case c19AnyEmpty(tm, lf.Guards, gens):
+							if !c19ConstIs(lf.Val, -1) {
+								whyV = append(whyV, fmt.Sprintf("result %d of a trial without generations is %s, not -1", k, tm.Of(lf.Val)))
+							}
+						default:
+							if !c19ConstIs(lf.Val, 0) {
+								whyV = append(whyV, fmt.Sprintf("result %d of a trial without a solved generation is %s, not 0", k, tm.Of(lf.Val)))
+							}
+						}
+						continue
+					}
+					t := tm.Of(lf.Val)
+					if t.Op != "field" || t.Name != wantF[k] || len(t.Args) != 1 {
+						whyV = append(whyV, fmt.Sprintf("result %d is %s, not the %s of the winner generation", k, t, wantF[k]))
+						continue
+					}
+					base := t.Args[0]
+					for base.Op == "un" && base.Name == "&" && len(base.Args) == 1 {
+						base = base.Args[0] // the address of the loop's copy of the element
+					}
+					switch {
+					case base.Op == "field" && base.Name == "WinnerGeneration" && len(base.Args) == 1 && base.Args[0].Op == "recv":
+						if !cached {
+							whyV = append(whyV, fmt.Sprintf("result %d reads the cached winner generation where it is not known to be there", k))
+						}
+					case c19ElemOf(base, gens, nil) && base.Op == "elem":
+						if !found {
+							whyV = append(whyV, fmt.Sprintf("result %d is taken from a generation that was not found solved", k))
+						}
+					default:
+						whyV = append(whyV, fmt.Sprintf("result %d is %s, not a field of the winner generation", k, t))
+					}
+				}
+			}
+			r.Check(len(whyV) == 0, "Trial.WinnerStatistics.values", p.Pos(wsFn.Pos()), "each result is the winner generation's field where a winner is known, 0 only where the scan found none, -1 only without generations", "Trial.WinnerStatistics: "+strings.Join(whyV, "; "))
+			r.Check(len(why) == 0, "Trial.WinnerStatistics.empty-iff", p.Pos(wsFn.Pos()), "-1 only where len(Generations)==0 is established; without a cached winner every trial with generations is scanned from the first generation on", "Trial.WinnerStatistics: "+strings.Join(why, "; "))
+		}
+	})
+
+	r.Rule("C19.9", "a series element is left at 0 exactly when its statistic is undefined: in every per-trial / per-generation series the store of element i is executed in exactly those iterations in which the value can be computed for element i (no pointer on the way to it is nil, the best-organism lookup found one, the complexity is not the math.MaxInt sentinel), every pointer field the value is read through that the package itself compares with nil somewhere is known to be non-nil where the store executes, the loop visits every element and is not left early. If a store is skipped for a defined value the series reports 0 for that trial/generation; if it is executed for an undefined one the accessor panics", func() {
+		n := 0
+		nillable := c19NillableFields(p)
+		r.Floor("pointer fields the package compares with nil", len(nillable), 2)
+		for _, e := range []struct{ fn, list string }{
+			{"Experiment.BestFitness", "recv.Trials"}, {"Experiment.BestSpeciesAge", "recv.Trials"}, {"Experiment.BestComplexity", "recv.Trials"},
+			{"Experiment.AvgDiversity", "recv.Trials"}, {"Experiment.EpochsPerTrial", "recv.Trials"},
+			{"Trial.ChampionsFitness", "recv.Generations"}, {"Trial.ChampionSpeciesAges", "recv.Generations"}, {"Trial.ChampionsComplexities", "recv.Generations"},
+			{"Trial.Diversity", "recv.Generations"}, {"Trial.Average", "recv.Generations"},
+		} {
+			fn := p.Func(PkgE, e.fn)
+			r.Fn(FuncName(fn))
+			tm := NewTermer(fn)
+			var why []string
+			k := 0
+			Instrs(fn, func(_ *ssa.BasicBlock, _ int, in ssa.Instruction) {
+				st, ok := in.(*ssa.Store)
+				if !ok {
+					return
+				}
+				ia, ok := st.Addr.(*ssa.IndexAddr)
+				if !ok {
+					return
+				}
+				base := ia.X
+				if ct, isCT := base.(*ssa.ChangeType); isCT {
+					base = ct.X
+				}
+				if _, isMk := base.(*ssa.MakeSlice); !isMk {
+					return
+				}
+				k++
+				if w := c19StoredWhenDefined(fn, tm, st, e.list, nillable); w != "" {
+					why = append(why, w)
+				}
+			})
+			n += k
+			r.Check(len(why) == 0 && k > 0, e.fn+".stored-iff-defined", p.Pos(fn.Pos()), "element i is stored in exactly the iterations in which its statistic is defined; every element of "+e.list+" is visited",
+				fmt.Sprintf("%s (%d element stores): %s", e.fn, k, strings.Join(why, "; ")))
+		}
+		r.Floor("element stores of the series accessors", n, 10)
+	})
+
+	r.Rule("C19.10", "the best organism of a trial is the fittest champion of the generations asked for: Trial.BestOrganism collects, by a loop over every recorded generation, the champion of each generation (onlySolvers false) or of exactly the generations with Solved (onlySolvers true) into a slice that starts empty, reports (nil,false) only where that slice is empty, and otherwise sorts it in descending order (sort.Reverse) and returns its first element with true. If a generation is left out, or the emptiness test or the index is off, the per-trial best fitness / age / complexity series are not those of the fittest recorded champion", func() {
+		const gens = "recv.Generations"
+		fn := p.Func(PkgE, "Trial.BestOrganism")
+		r.Fn(FuncName(fn))
+		tm := NewTermer(fn)
+		pos := p.Pos(fn.Pos())
+		// the collection: what a non-nil first result is an element of
+		var coll ssa.Value
+		type elemLeaf struct {
+			lf  retLeaf
+			ia  *ssa.IndexAddr
+			use ssa.Instruction
+		}
+		var elems []elemLeaf
+		var nils []retLeaf
+		var whyR []string
+		for _, lf := range retLeaves(fn, 0) {
+			if c, isC := lf.Val.(*ssa.Const); isC && c.Value == nil {
+				nils = append(nils, lf)
+				continue
+			}
+			ld, ok := lf.Val.(*ssa.UnOp)
+			var ia *ssa.IndexAddr
+			if ok && ld.Op == token.MUL {
+				ia, _ = ld.X.(*ssa.IndexAddr)
+			}
+			if ia == nil {
+				whyR = append(whyR, "returns "+tm.Of(lf.Val).String()+", which is not an element of the collected champions")
+				continue
+			}
+			elems = append(elems, elemLeaf{lf, ia, ld})
+			if coll == nil {
+				coll = ia.X
+			}
+		}
+		if coll == nil {
+			r.Bad("Trial.BestOrganism.collects", pos, "no result is an element of a collected slice: "+strings.Join(whyR, "; "))
+			return
+		}
+		web := phiWeb(coll)
+		inWeb := func(v ssa.Value) bool {
+			for {
+				if ct, ok := v.(*ssa.ChangeType); ok {
+					v = ct.X
+					continue
+				}
+				break
+			}
+			if v == coll {
+				return true
+			}
+			ph, ok := v.(*ssa.Phi)
+			return ok && web.Phis[ph]
+		}
+		isLen := func(v ssa.Value) bool {
+			c, ok := c19IsBuiltinCall(v, "len")
+			return ok && len(c.Call.Args) == 1 && inWeb(c.Call.Args[0])
+		}
+		// (1) how it is collected
+		why := ""
+		var l *Loop
+		var hp *ssa.Phi
+		for ph := range web.Phis {
+			for _, cand := range Loops(fn) {
+				if cand.Header == ph.Block() {
+					if hp != nil && hp != ph {
+						why = "the collection is carried by more than one loop"
+					}
+					hp, l = ph, cand
+				}
+			}
+		}
+		var iv ssa.Value
+		if why == "" && hp == nil {
+			why = "the collection is not built by a loop"
+		}
+		if why == "" {
+			for _, f := range web.Feeders {
+				in, _ := f.(ssa.Instruction)
+				if mk, isMk := f.(*ssa.MakeSlice); isMk {
+					if !c19ConstIs(mk.Len, 0) || l.Blocks[mk.Block()] {
+						why = "the collection does not start as an empty slice made before the loop"
+					}
+					continue
+				}
+				if _, isApp := c19IsBuiltinCall(f, "append"); isApp && in != nil && l.Blocks[in.Block()] {
+					continue
+				}
+				why = "the collection also receives " + tm.Of(f).String()
+			}
+			if web.HasNil || len(web.Consts) > 0 {
+				// a nil slice is an empty slice as well
+			}
+		}
+		if why == "" {
+			var ok bool
+			if iv, ok = c19FullRange(tm, l, gens); !ok {
+				why = "the collecting loop does not visit every element of " + gens
+			}
+		}
+		if why == "" {
+			why = c19ReachedUnless(p, fn, tm, l, func(gs []Guard) bool { return c19AnyEmpty(tm, gs, gens) })
+		}
+		if why == "" {
+			paths, complete := EnumIterPaths(fn, l, 512)
+			if !complete {
+				why = "too many paths through one iteration"
+			}
+			var only ssa.Value
+			if len(fn.Params) > 1 {
+				only = fn.Params[1]
+			}
+			for _, ip := range paths {
+				if why != "" {
+					break
+				}
+				if ip.End != "back" {
+					if !(len(ip.Blocks) == 2 && ip.Blocks[0] == l.Header) {
+						why = "an iteration leaves the loop from its body: the generations after it are not collected"
+					}
+					continue
+				}
+				os := 0
+				for _, g := range ip.Conds {
+					cond, out := g.Cond, g.True
+					for {
+						if u, isU := cond.(*ssa.UnOp); isU && u.Op == token.NOT {
+							cond, out = u.X, !out
+							continue
+						}
+						break
+					}
+					if cond == only && only != nil {
+						if out {
+							os = 1
+						} else {
+							os = -1
+						}
+					}
+				}
+				sv := c19FieldOutcome(tm, ip.Conds, "Solved", gens, iv)
+				want := -1
+				switch {
+				case os == -1, sv == 1:
+					want = 1 // every champion is wanted / a solved generation's champion is wanted in both modes
+				case os == 1 && sv == -1:
+					want = 0
+				}
+				if want < 0 {
+					why = "an iteration does not decide by onlySolvers and the generation's Solved whether the champion is collected"
+					break
+				}
+				added, ok := c19AppendsOnPath(ip, hp)
+				if !ok {
+					why = "an iteration changes the collection otherwise than by append"
+					break
+				}
+				if len(added) != want {
+					why = fmt.Sprintf("an iteration in which %d champion is to be collected appends %d (onlySolvers=%d, Solved=%d; +1 true, -1 false, 0 not tested)", want, len(added), os, sv)
+					break
+				}
+				for _, a := range added {
+					at := tm.Of(a)
+					if c19Strip(at) != "recv.Generations[*].Champion" || !c19ElemOf(at, gens, iv) {
+						why = "an iteration collects " + at.String() + ", not the champion of the generation visited"
+					}
+				}
+			}
+		}
+		r.Check(why == "", "Trial.BestOrganism.collects", pos, "the champion of every generation (or of exactly the solved ones when onlySolvers) is appended to a slice that starts empty", "Trial.BestOrganism: "+why)
+
+		// (2) what is returned
+		for _, lf := range nils {
+			z := false
+			for _, g := range lf.Guards {
+				if zero, _ := c19NatFact(g, isLen); zero {
+					z = true
+				}
+			}
+			if !z {
+				whyR = append(whyR, "nil is returned on a path on which the collection is not known to be empty")
+			}
+		}
+		for _, e := range elems {
+			if !inWeb(e.ia.X) {
+				whyR = append(whyR, "the organism returned is not an element of the collection")
+				continue
+			}
+			if !c19ConstIs(e.ia.Index, 0) {
+				whyR = append(whyR, "the organism returned is element "+tm.Of(e.ia.Index).String()+" of the sorted collection, not the first")
+			}
+			nz := false
+			for _, g := range c19LeafGuards(e.lf) {
+				if _, n := c19NatFact(g, isLen); n {
+					nz = true
+				}
+			}
+			if !nz {
+				whyR = append(whyR, "the first element is read on a path on which the collection is not known to be non-empty")
+			}
+			// sorted in descending order before the read
+			sorted := false
+			Instrs(fn, func(b *ssa.BasicBlock, i int, in ssa.Instruction) {
+				c, ok := in.(*ssa.Call)
+				if !ok {
+					return
+				}
+				if n, _ := calleeName(c.Common()); n != "sort.Sort" && n != "sort.Stable" {
+					return
+				}
+				rv, ok := c.Call.Args[0].(*ssa.Call)
+				if !ok {
+					return
+				}
+				if n, _ := calleeName(rv.Common()); n != "sort.Reverse" {
+					return
+				}
+				mi, ok := rv.Call.Args[0].(*ssa.MakeInterface)
+				if !ok || !inWeb(mi.X) {
+					return
+				}
+				ub := e.use.Block()
+				if (b == ub && i < instrIndex(e.use)) || (b != ub && b.Dominates(ub)) {
+					sorted = true
+				}
+			})
+			if !sorted {
+				whyR = append(whyR, "no sort.Sort(sort.Reverse(collection)) dominates the read of the first element")
+			}
+		}
+		for _, lf := range retLeaves(fn, 1) {
+			zero, nonZero := false, false
+			for _, g := range lf.Guards {
+				z, n := c19NatFact(g, isLen)
+				zero, nonZero = zero || z, nonZero || n
+			}
+			switch {
+			case IsConstBool(lf.Val, true):
+				if !nonZero {
+					whyR = append(whyR, "true is reported on a path on which the collection is not known to be non-empty")
+				}
+			case IsConstBool(lf.Val, false):
+				if !zero {
+					whyR = append(whyR, "false is reported on a path on which the collection is not known to be empty")
+				}
+			default:
+				whyR = append(whyR, "the found flag is "+tm.Of(lf.Val).String())
+			}
+		}
+		r.Check(len(whyR) == 0 && len(elems) > 0, "Trial.BestOrganism.result", pos, "(first element of the collection sorted in descending order, true) where it is non-empty, (nil, false) exactly where it is empty", "Trial.BestOrganism: "+strings.Join(whyR, "; "))
 	})
 
 	r.Rule("C19.4", "aggregates as origins: success rate, solved counts, epochs per trial, diversity and best organism are computed from the recorded generations as defined", func() {
